@@ -2,6 +2,7 @@ use std::{
     path::{Path, PathBuf},
     env::current_dir, sync::OnceLock, fs::ReadDir,
     ffi::{OsStr, OsString}, os::unix::ffi::OsStrExt,
+    num::IntErrorKind,
 };
 
 use regex::Regex;
@@ -79,7 +80,10 @@ fn next_backup_num(file: &Path) -> Result<u64> {
             current = current.max(num);
         }
     }
-    Ok(current + 1)
+    // Running out of numbers is an error; wrapping around would hand
+    // out a number that is already taken.
+    current.checked_add(1)
+        .ok_or(XcpError::InvalidDestination("No backup number left.").into())
 }
 
 fn is_num_backup(base_file: impl AsRef<OsStr>, candidate: &Path) -> Option<u64> {
@@ -93,12 +97,18 @@ fn is_num_backup(base_file: impl AsRef<OsStr>, candidate: &Path) -> Option<u64> 
         .strip_prefix(base_file.as_ref().as_bytes())?
         .strip_prefix(b".")?;
     let ext = std::str::from_utf8(ext).ok()?;
-    let num = get_regex()
+    let num = match get_regex()
         .captures(ext)?
         .get(1)?
         .as_str()
         .parse::<u64>()
-        .ok()?;
+    {
+        Ok(num) => num,
+        // A number too large to represent is still a backup, larger
+        // than any we could hand out.
+        Err(e) if *e.kind() == IntErrorKind::PosOverflow => u64::MAX,
+        Err(_) => return None,
+    };
     Some(num)
 }
 
